@@ -129,6 +129,7 @@ fn spec(prop: &str, alpha: Alpha, depth: usize, cfgs: Vec<Cfg>, oracles: Oracles
         max_reopens: 0,
         max_refused: 0,
         refused_level: 0,
+        roots_skip_inapplicable: false,
         oracles,
         wall_cap: Duration::from_secs(cap_s * cap_mult()),
         grid_probes: false,
@@ -147,6 +148,74 @@ fn deep_roots() -> Vec<Vec<&'static str>> {
         vec!["append", "append", "purge_first", "append"],
         vec!["append", "vote_up", "append_t+1", "commit_last", "user_data", "append"],
     ]
+}
+
+/// Periodic histories: every pattern of up to `max_pat` core symbols, repeated
+/// `reps` times (symbols that are not applicable at a state are skipped). They
+/// reach what a depth-bounded search cannot: many rotations, many purges, long
+/// logs, counters that have to grow — still an exhaustively enumerated family.
+fn periodic_roots(max_pat: usize, reps: &[usize]) -> Vec<Vec<&'static str>> {
+    const CORE: [&str; 13] = [
+        "append", "append_t+1", "append_t+2", "truncate_last", "truncate_first+1", "truncate_purged+1", "purge_first", "purge_last", "purge_beyond", "vote_up",
+        "commit_last", "user_data", "flush",
+    ];
+    let mut pats: Vec<Vec<&'static str>> = vec![vec![]];
+    let mut all: Vec<Vec<&'static str>> = vec![];
+    for _ in 0..max_pat {
+        let mut next = vec![];
+        for p in &pats {
+            for s in CORE {
+                let mut q = p.clone();
+                q.push(s);
+                next.push(q);
+            }
+        }
+        all.extend(next.iter().cloned());
+        pats = next;
+    }
+    // a pattern without an append never builds a log: keep those that append,
+    // and drop repetitions of a shorter pattern (aa = a repeated)
+    all.retain(|p| p.iter().any(|s| s.starts_with("append")));
+    all.retain(|p| !(p.len() == 2 && p[0] == p[1]) && !(p.len() == 3 && p[0] == p[1] && p[1] == p[2]));
+    let mut out = vec![];
+    for p in &all {
+        for r in reps {
+            let mut h = vec![];
+            for _ in 0..*r {
+                h.extend(p.iter().copied());
+            }
+            out.push(h);
+        }
+    }
+    out
+}
+
+fn periodic_phase(prop: &str, cfgs: Vec<Cfg>, o: Oracles, thorough: bool) -> Phase {
+    let mut s = spec(prop, Alpha::Core, 1, cfgs, o, if thorough { 1200 } else { 35 });
+    s.roots = if thorough { 
+        let mut v = periodic_roots(2, &[3, 6, 12]);
+        v.extend(periodic_roots(3, &[4]).into_iter().filter(|h| h.len() == 12));
+        v
+    } else {
+        periodic_roots(2, &[4, 8])
+    };
+    s.roots_skip_inapplicable = true;
+    Phase { name: "periodic histories (every pattern of 1-2 core symbols repeated; thorough: also of 3) + one more operation", spec: s }
+}
+
+/// Scale phase: from start states built with bulk appends, the core alphabet
+/// plus bulk appends for a few more levels.
+fn scale_phase(prop: &str, cfgs: Vec<Cfg>, o: Oracles, thorough: bool) -> Phase {
+    let mut s = spec(prop, Alpha::Scale, if thorough { 3 } else { 2 }, cfgs, o, if thorough { 1500 } else { 40 });
+    s.roots = vec![
+        vec!["append_bulk40"],
+        vec!["append_bulk130"],
+        vec!["append_bulk40", "purge_mid"],
+        vec!["append_bulk130", "append_bulk130"],
+        vec!["append_bulk130", "append_bulk130", "flush"],
+        vec!["append_bulk40", "append_bulk40", "append_bulk40", "purge_mid", "flush"],
+    ];
+    Phase { name: "scale: bulk appends of 40 / 130 entries (dozens of rotations and chunk removals, caches above a hundred entries)", spec: s }
 }
 
 /// both chunk limits set; with the harness's record sizes sometimes the size
@@ -199,6 +268,8 @@ pub fn seq_phases(prop: &str, tier: &str) -> Vec<Phase> {
                             s
                         },
                     },
+                    periodic_phase(prop, vec![Cfg::records(2), Cfg::records(3)], o.clone(), thorough),
+                    scale_phase(prop, vec![Cfg::records(2), Cfg::records(200).with_cache(Some(2), None)], o.clone(), thorough),
                 ]
             } else {
                 vec![
@@ -218,6 +289,8 @@ pub fn seq_phases(prop: &str, tier: &str) -> Vec<Phase> {
                             s
                         },
                     },
+                    periodic_phase(prop, vec![Cfg::records(2), Cfg::records(3)], o.clone(), thorough),
+                    scale_phase(prop, vec![Cfg::records(2), Cfg::records(200).with_cache(Some(2), None)], o.clone(), thorough),
                 ]
             }
         }
@@ -241,9 +314,19 @@ pub fn seq_phases(prop: &str, tier: &str) -> Vec<Phase> {
             let mut t = spec(prop, Alpha::Tiny, if thorough { 7 } else { 5 }, cfgs, o, if thorough { 1500 } else { 30 });
             t.reopen_cfgs = reopen_cfgs[..3].to_vec();
             t.max_reopens = if thorough { 3 } else { 2 };
+            let mut p = periodic_phase(prop, vec![Cfg::records(2), Cfg::records(3)], Oracles { semantics: true, restart_epilogue: true, ..Default::default() }, thorough);
+            p.spec.reopen_cfgs = reopen_cfgs[..3].to_vec();
+            p.spec.max_reopens = 1;
             vec![
                 Phase { name: "core alphabet + restarts under changed limits", spec: s },
                 Phase { name: "tiny alphabet + restarts, deeper", spec: t },
+                p,
+                {
+                    let mut sc = scale_phase(prop, vec![Cfg::records(2), Cfg::records(200).with_cache(Some(2), None)], Oracles { semantics: true, restart_epilogue: true, ..Default::default() }, thorough);
+                    sc.spec.reopen_cfgs = reopen_cfgs[..2].to_vec();
+                    sc.spec.max_reopens = 1;
+                    sc
+                },
             ]
         }
         "C07" => {
@@ -262,6 +345,7 @@ pub fn seq_phases(prop: &str, tier: &str) -> Vec<Phase> {
                 name: "legal alphabet (incl. batches and 40 000-byte entries), eager worker, small caches",
                 spec: spec(prop, Alpha::Legal, if thorough { 4 } else { 3 }, cfgs.clone(), o.clone(), if thorough { 1200 } else { 35 }),
             }];
+            v.push(periodic_phase(prop, cfgs[..2].to_vec(), o.clone(), thorough));
             if thorough {
                 v.push(Phase {
                     name: "core alphabet, deeper, small caches",
@@ -326,6 +410,8 @@ pub fn seq_phases(prop: &str, tier: &str) -> Vec<Phase> {
                             s
                         },
                     },
+                    periodic_phase(prop, vec![Cfg::records(2), Cfg::records(3), Cfg::size(100)], o.clone(), thorough),
+                    scale_phase(prop, vec![Cfg::records(1), Cfg::records(200)], o.clone(), thorough),
                 ]
             } else {
                 vec![
@@ -342,6 +428,8 @@ pub fn seq_phases(prop: &str, tier: &str) -> Vec<Phase> {
                             s
                         },
                     },
+                    periodic_phase(prop, vec![Cfg::records(2), Cfg::records(3), Cfg::size(100)], o.clone(), thorough),
+                    scale_phase(prop, vec![Cfg::records(1), Cfg::records(200)], o.clone(), thorough),
                 ]
             }
         }
@@ -378,6 +466,8 @@ pub fn seq_phases(prop: &str, tier: &str) -> Vec<Phase> {
                 Phase { name: "from start states with re-appended entries and an advanced boundary", spec: r },
                 Phase { name: "the same start states, evictable entries drained after every operation", spec: d },
                 Phase { name: "core alphabet, drained after every operation", spec: d0 },
+                periodic_phase(prop, vec![Cfg::records(3).with_cache(Some(0), None), Cfg::records(2).with_cache(Some(2), Some(5))], Oracles { cache: true, drain_each: true, ..Default::default() }, thorough),
+                scale_phase(prop, vec![Cfg::records(200).with_cache(Some(2), None), Cfg::records(50).with_cache(Some(0), None), Cfg::records(200).with_cache(None, Some(100))], Oracles { cache: true, ..Default::default() }, thorough),
             ]
         }
         "C16" => {
@@ -741,7 +831,30 @@ fn base_spec(prop: &str, hist: Vec<SOp>, cfg: Cfg) -> HistSpec {
         lock_window: false,
         nested: false,
         fixed: false,
+        caller_first_only: false,
+        crash_final_only: false,
     }
+}
+
+/// Long-queue probe: `n` x (write; flush) issued before the worker gets to run
+/// (one schedule: the caller whenever it is enabled), then every acknowledgement
+/// awaited. The queue then holds `n` consecutive write requests — what a limit
+/// on the worker's batch size, or any other count in its loop, is compared with.
+/// No rotation (default chunk limits), so nothing but writes is queued.
+fn long_queue_spec(prop: &str, n: usize, votes: bool) -> HistSpec {
+    let mut syms = vec![];
+    for _ in 0..n {
+        syms.push(if votes { Sym::V } else { Sym::A });
+        syms.push(Sym::F);
+    }
+    for _ in 0..n {
+        syms.push(Sym::W);
+    }
+    let mut s = base_spec(prop, schedx::from_syms(&syms), Cfg::default());
+    s.caller_first_only = true;
+    s.fixed = true;
+    s.max_executions = 1;
+    s
 }
 
 fn has(syms: &[Sym], s: Sym) -> bool {
@@ -754,6 +867,14 @@ pub fn sched_specs(prop: &str, tier: &str) -> Vec<HistSpec> {
     let mut out = vec![];
     match prop {
         "C03" | "C05" => {
+            {
+                let mut s = long_queue_spec(prop, if thorough { 1100 } else { 300 }, true);
+                s.crash = true;
+                s.crash_final_only = true;
+                s.o_c03 = prop == "C03";
+                s.o_c05 = prop == "C05";
+                out.push(s);
+            }
             let alpha = [Sym::A, Sym::V, Sym::F, Sym::W, Sym::T, Sym::Pfirst, Sym::Alow, Sym::C, Sym::U];
             let max_len = if thorough { 5 } else { 3 };
             for len in 1..=max_len {
@@ -867,6 +988,18 @@ pub fn sched_specs(prop: &str, tier: &str) -> Vec<HistSpec> {
             }
         }
         "C04" => {
+            for votes in [false, true] {
+                let mut s = long_queue_spec(prop, if thorough { 1100 } else { 300 }, votes);
+                s.o_c04 = true;
+                out.push(s);
+            }
+            // a write request above 1 MiB queued behind a small one (and before one)
+            for sh in [vec![Sym::A, Sym::F, Sym::Amega, Sym::F, Sym::W, Sym::W], vec![Sym::Amega, Sym::F, Sym::A, Sym::F, Sym::W, Sym::W]] {
+                let mut s = base_spec(prop, schedx::from_syms(&sh), Cfg::default());
+                s.fixed = true;
+                s.o_c04 = true;
+                out.push(s);
+            }
             let alpha = [Sym::A, Sym::F, Sym::W, Sym::Abig, Sym::T, Sym::Pfirst];
             let max_len = if thorough { 5 } else { 4 };
             for len in 1..=max_len {
@@ -1125,6 +1258,19 @@ pub fn c14_specs(tier: &str) -> Vec<crate::c14::C14Spec> {
     let thorough = tier == "thorough";
     let alpha = [Sym::A, Sym::Pfirst, Sym::F, Sym::W];
     let mut out = vec![];
+    // scale: one append of 70 (thorough also 140) entries under 2 records per chunk,
+    // a purge that makes dozens of chunk files obsolete, flush, ack, drop — one
+    // schedule (too long to explore); the whole second-instance script follows
+    for n in if thorough { vec![70u64, 140] } else { vec![70] } {
+        let entries: Vec<_> = (0..n).map(|i| ((1u64, i), crate::alphabet::payload((1, i), 0))).collect();
+        let phase1 = vec![
+            SOp::W(crate::model::Op::Append(entries)),
+            SOp::W(crate::model::Op::Purge((1, n - 5))),
+            SOp::Flush,
+            SOp::WaitAck,
+        ];
+        out.push(crate::c14::C14Spec { prop: "C14".to_string(), phase1, cfg: Cfg::records(2), max_executions: 1, unwind_drop: false, worker_faults: false, caller_first_only: true });
+    }
     let max_prefix = if thorough { 3 } else { 2 };
     for plen in 0..=max_prefix {
         // quick tier: of the length-2 prefixes only those with a purge (a chunk
@@ -1163,19 +1309,19 @@ pub fn c14_specs(tier: &str) -> Vec<crate::c14::C14Spec> {
                     if plen >= 2 && !thorough && (c.max_records == Some(2) || tail >= 1) {
                         continue;
                     }
-                    out.push(crate::c14::C14Spec { prop: "C14".to_string(), phase1: syms_ops.clone(), cfg: c, max_executions: 300_000, unwind_drop: false, worker_faults: false });
+                    out.push(crate::c14::C14Spec { prop: "C14".to_string(), phase1: syms_ops.clone(), cfg: c, max_executions: 300_000, unwind_drop: false, worker_faults: false, caller_first_only: false });
                     // a worker that fails (EIO at a write, fdatasync or unlink): quick tier for
                     // the shapes with work pending behind the last acknowledgement
                     let pending_removal0 = prefix.iter().any(|o| matches!(o, SOp::W(crate::model::Op::Purge(_))));
                     if thorough || (pending_removal0 && tail == 0 && plen <= 2) || (plen == 0 && tail >= 1 && c.max_records == Some(2)) {
-                        out.push(crate::c14::C14Spec { prop: "C14".to_string(), phase1: syms_ops.clone(), cfg: c, max_executions: 300_000, unwind_drop: false, worker_faults: true });
+                        out.push(crate::c14::C14Spec { prop: "C14".to_string(), phase1: syms_ops.clone(), cfg: c, max_executions: 300_000, unwind_drop: false, worker_faults: true, caller_first_only: false });
                     }
                     // the same, dropped by unwinding: quick tier for the purge prefixes
                     // (a removal is pending behind the acknowledged flush) and the
                     // empty prefix with a rotated tail pending
                     let pending_removal = prefix.iter().any(|o| matches!(o, SOp::W(crate::model::Op::Purge(_))));
                     if thorough || (pending_removal && tail == 0) || (plen == 0 && tail == 2 && c.max_records == Some(3)) {
-                        out.push(crate::c14::C14Spec { prop: "C14".to_string(), phase1: syms_ops.clone(), cfg: c, max_executions: 300_000, unwind_drop: true, worker_faults: false });
+                        out.push(crate::c14::C14Spec { prop: "C14".to_string(), phase1: syms_ops.clone(), cfg: c, max_executions: 300_000, unwind_drop: true, worker_faults: false, caller_first_only: false });
                     }
                 }
             }
@@ -1344,7 +1490,7 @@ fn c14_shard(tier: &str, shard: usize, of: usize) -> i32 {
             break;
         }
         // deviation at the join: the wait for the worker may give up (timer lands first)
-        if !s.worker_faults {
+        if !s.worker_faults && !s.caller_first_only {
             if let Err(schedx::Machinery(m)) = crate::c14::impatient_probe(s, &mut vios, &mut stats) {
                 machinery = Some(m);
                 break;
